@@ -192,3 +192,28 @@ prop("C19",
                 "are fresh by the protocol's own definition and are recorded, not judged. Heap growth is recorded, not judged.",
      technique="fault injection on a simulated network with wire-log and state-table monitors (virtual time)",
      assumptions=["go1.26 testing/synctest virtual time"])
+
+prop("C03",
+     level="exploration",
+     parts=[{"engine": "chan", "race": True}],
+     floor={"quick": 150, "thorough": 2000},
+     child_timeout={"quick": 900, "thorough": 3000},
+     rule="Seeded adversary schedules over 2-4 live sessions (both handshake modes) with self-describing messages in both "
+          "directions: a faithful phase; an additive-hostile phase where every genuine packet is delivered and unauthenticated "
+          "datagrams are added around it (bit flips in type/reserved/session-id/counter/body/tag, truncation to any length, "
+          "extension, forged control packets incl. the close byte, unknown type bytes with a live session id, counters far ahead, "
+          "session id rewritten to another live session, random bodies, from the genuine and from third addresses, exact "
+          "duplicates immediate and late, reflection to the sender, cross-session delivery); a lossy phase (drop, delay/reorder, "
+          "corruption in flight, late duplicates); then probes. Separate cases: Write/WriteMsg of sizes 0,1,2,Max-1,Max,Max+1,"
+          "2Max-1,2Max,2Max+1,3Max+17,5Max,random on a quiet session; 2-8 concurrent writers on one end. Online oracle on every "
+          "returned message (written on that session+direction, byte-identical, at most once), completeness in the faithful and "
+          "additive phases, sessions not closed, probes delivered; offline on the wire log: packet counters pairwise distinct per "
+          "(session, sender), no plaintext marker / SNI / certificate window in any datagram. Race detector on. Non-trivial = a "
+          "schedule / size / writer case that ran to the end with every delivered message judged; distinct by case index.",
+     level_text="Exploration of seeded datagram-level adversary schedules against the real transport with online per-message "
+                "monitors and offline wire-log monitors; exhaustive over the listed size grid.",
+     level_note="Receive queues stay far below MaxBufferedPackets (queue-full drops are allowed by the code and not provoked). "
+                "Confidentiality is the absence of known plaintext windows, a necessary condition only. Race reports are listed "
+                "as observations here (C17 judges races).",
+     technique="runtime monitoring under network fault injection (simulated network, virtual time) with online message oracle, offline wire-log checks, race detector",
+     assumptions=["go1.26 testing/synctest virtual time"])
